@@ -149,6 +149,7 @@ func c12Run(t *testing.T, p c12Plan) (res vfResult) {
 		}
 		crashPoints, insideWrite, overlapped := 0, false, false
 		restoreProbe := 0
+		removedDuringImage := false
 		for gi, group := range p.Groups {
 			base := m.clone()
 			results := make([]vfCmdResult, len(group))
@@ -237,8 +238,20 @@ func c12Run(t *testing.T, p c12Plan) (res vfResult) {
 							}
 						}
 					}
+					// a restart only reads: should it write, every step of such a write is a place to be killed at as well,
+					// and the image must then still describe a configuration in force
+					restoreWrote, restoreBad := 0, ""
 					sc.mu.Lock()
 					sc.off = true // restoring must not park at the hooks
+					sc.observe = func(pt string) {
+						if !strings.HasPrefix(pt, "snapshot.") || removedDuringImage {
+							return
+						}
+						restoreWrote++
+						if ok, why := c12FileMatches(img+"/r.state", allowed); !ok && restoreBad == "" {
+							restoreBad = fmt.Sprintf("at %s: %s", pt, why)
+						}
+					}
 					sc.mu.Unlock()
 					var gotLists []map[string]string
 					var rerr error
@@ -255,6 +268,7 @@ func c12Run(t *testing.T, p c12Plan) (res vfResult) {
 							if _, still := gl[removed]; still || len(gl) != len(gotLists[0])-1 {
 								sc.mu.Lock()
 								sc.off = false
+								sc.observe = nil
 								sc.mu.Unlock()
 								res.failf("crash-image-then-command", "after a kill while %v, a restart, `remove %s` and another restart the proxy lists %v (first restart listed %v)", where, removed, gl, gotLists[0])
 								return
@@ -269,6 +283,7 @@ func c12Run(t *testing.T, p c12Plan) (res vfResult) {
 						sort.Strings(names)
 						if start == 1 && len(names) > 0 && rerr == nil {
 							// the restarted proxy goes on working: a command that makes the state smaller
+							removedDuringImage = true
 							if err := vfRemove(nr, names[0]); err != nil {
 								rerr = err
 							}
@@ -281,7 +296,16 @@ func c12Run(t *testing.T, p c12Plan) (res vfResult) {
 					}
 					sc.mu.Lock()
 					sc.off = false
+					sc.observe = nil
 					sc.mu.Unlock()
+					removedDuringImage = false
+					if restoreBad != "" {
+						res.failf("restart-rewrites-state-piecemeal", "a start from the image a kill while %v left writes the state file again, and a kill during that start-up (%s) would leave a file that is not a complete snapshot of a configuration in force", where, restoreBad)
+						return
+					}
+					if restoreWrote > 0 {
+						res.label("restart-wrote-the-state-file")
+					}
 					if rerr != nil {
 						res.failf("crash-point-restore-fails", "a kill while %v leaves a data directory the next start cannot restore: %v", where, rerr)
 						return
